@@ -4,8 +4,11 @@ scalars in adjoint(), energy shift bookkeeping. Rayleigh quotients and residuals
 and not decided."""
 import ast
 
-from ..core import (AnalysisError, body_nodes, call_name, dotted, is_self_attr, key_text, names_in,
-                    params, parent, stmts_of, unparse)
+import re
+
+from ..core import (AnalysisError, assigned_targets, body_nodes, call_name, dotted, is_self_attr,
+                    key_text, names_in, params, parent, stmts_of, unparse)
+from ..linform import NotPoly, Poly, eval_poly
 
 KRY = 'tenpy/linalg/krylov_based.py'
 SPARSE = 'tenpy/linalg/sparse.py'
@@ -51,6 +54,254 @@ def _tokens(stmts):
     return out
 
 
+def _env(func, skip=()):
+    """single-assignment locals -> Poly (opaque calls become symbols named by their text)"""
+    env = {}
+    counts = {}
+    for st in stmts_of(func):
+        for t in assigned_targets(st):
+            if isinstance(t, ast.Name):
+                counts[t.id] = counts.get(t.id, 0) + 1
+    for st in stmts_of(func):
+        if isinstance(st, ast.Assign) and len(st.targets) == 1 and isinstance(
+                st.targets[0], ast.Name) and counts.get(st.targets[0].id) == 1 and \
+                st.targets[0].id not in skip:
+            try:
+                env[st.targets[0].id] = eval_poly(st.value, env, opaque_calls=True)
+            except NotPoly:
+                pass
+    return env
+
+
+def check_pairing(m, rep, r):
+    """psi = sum_k vf[k] v_k with v_0 = psi0: the cached vector cache[-k] is v_{N-k}; the rebuilt
+    vector after the (k+1)-th matvec is v_{k+1}; the rebuild runs for the N-len_cache-1 missing
+    ones, and len_cache is measured before the cache is emptied. Decided on index polynomials."""
+    q = 'KrylovBased._calc_result_full'
+    f = m.func(q)
+    env = _env(f)
+    N = Poly.sym('N')
+    LC = Poly.sym('len(self._cache)')
+    rep.instance('KRYLOV-coefficients', {'function': q})
+
+    def bad(key, msg, node):
+        rep.violation('KRYLOV-coefficients', m, q, key, msg, node.lineno)
+
+    # cached part
+    found = False
+    for lp in ast.walk(f):
+        if not isinstance(lp, ast.For) or not isinstance(lp.target, ast.Name):
+            continue
+        for c in body_nodes(lp):
+            if isinstance(c, ast.Call) and dotted(c.func) == 'self.iadd_prefactor_other' and \
+                    len(c.args) == 3 and isinstance(c.args[2], ast.Subscript) and \
+                    unparse(c.args[2].value) == 'self._cache' and \
+                    isinstance(c.args[1], ast.Subscript):
+                found = True
+                try:
+                    A = eval_poly(c.args[1].slice, env, True)
+                    B = eval_poly(c.args[2].slice, env, True)
+                    it = lp.iter
+                    lo = eval_poly(it.args[0], env, True) if len(it.args) == 2 else Poly.const(0)
+                    hi = it.args[-1]
+                    his = {eval_poly(a, env, True) for a in hi.args} if isinstance(
+                        hi, ast.Call) and call_name(hi) == 'min' else {eval_poly(hi, env, True)}
+                except (NotPoly, AttributeError, IndexError) as e:
+                    bad('coefficient-pairing', 'cannot read the index expressions of `%s` (%s)' %
+                        (unparse(c)[:70], e), c)
+                    continue
+                k = Poly.sym(lp.target.id)
+                if not (A == N + B) or not (B == -k) or not (lo == Poly.const(1)):
+                    bad('coefficient-pairing',
+                        '`%s` for %s in %s: cache[-k] holds v_{N-k}, so the coefficient must be '
+                        'vf[N-k] with k starting at 1 (cache[-1] is the newest vector v_{N-1})' %
+                        (unparse(c)[:80], lp.target.id, unparse(lp.iter)), c)
+                if his != {LC + Poly.const(1), N}:
+                    bad('coefficient-range',
+                        'the cached part runs over k = 1 .. min(len_cache, N-1), i.e. '
+                        'range(1, min(len_cache + 1, N)); found %s' % unparse(lp.iter), lp)
+    if not found:
+        bad('coefficient-pairing', 'the sum over the cached vectors was not found', f)
+    # rebuilt part
+    calls = [c for c in body_nodes(f) if isinstance(c, ast.Call) and
+             dotted(c.func) == 'self._rebuild_krylov_for_result_full']
+    if not calls:
+        bad('rebuild-count', 'the rebuild pass is never called', f)
+    resets = [st for st in stmts_of(f) if isinstance(st, ast.Assign) and
+              unparse(st.targets[0]) == 'self._cache']
+    for c in calls:
+        try:
+            M = eval_poly(c.args[1], env, True)
+        except (NotPoly, IndexError) as e:
+            bad('rebuild-count', 'cannot read `%s` (%s)' % (unparse(c), e), c)
+            continue
+        if not (M == N - LC - Poly.const(1)):
+            bad('rebuild-count', '`%s`: v_1 .. v_{N-len_cache-1} are the vectors that are neither '
+                'psi0 nor cached; found a count of %r' % (unparse(c)[:80], M), c)
+    for st in stmts_of(f):
+        if any(isinstance(x, ast.Call) and unparse(x) == 'len(self._cache)' for x in ast.walk(st)):
+            if any(rs.lineno <= st.lineno for rs in resets):
+                bad('len-after-reset', '`%s` measures the cache after it was emptied' %
+                    key_text(st)[:70], st)
+    # rebuild: coefficient of the vector after the (k+1)-th matvec
+    qr = 'LanczosGroundState._rebuild_krylov_for_result_full'
+    rep.instance('KRYLOV-coefficients', {'function': qr})
+    loops = [s for s in r.body if isinstance(s, ast.For)]
+    ok = False
+    for lp in loops:
+        if not isinstance(lp.target, ast.Name):
+            continue
+        k = Poly.sym(lp.target.id)
+        it = lp.iter
+        try:
+            lo = eval_poly(it.args[0], {}, True) if len(it.args) == 2 else Poly.const(0)
+        except (NotPoly, AttributeError, IndexError):
+            continue
+        seen_matvec = seen_norm = False
+        for st in lp.body:
+            u = unparse(st)
+            if u == 'w = self.H.matvec(w)':
+                seen_matvec = True
+            if isinstance(st, ast.Expr) and isinstance(st.value, ast.Call) and \
+                    dotted(st.value.func) == 'self.iscale_prefactor' and \
+                    unparse(st.value.args[0]) == 'w':
+                seen_norm = seen_matvec
+            if isinstance(st, ast.Expr) and isinstance(st.value, ast.Call) and \
+                    dotted(st.value.func) == 'self.iadd_prefactor_other' and \
+                    unparse(st.value.args[0]) == 'psif':
+                c = st.value
+                try:
+                    A = eval_poly(c.args[1].slice, {}, True)
+                except (NotPoly, AttributeError):
+                    continue
+                if unparse(c.args[2]) == 'w' and seen_matvec and seen_norm and \
+                        A == k - lo + Poly.const(1):
+                    ok = True
+    start_ok = any(isinstance(st, ast.Assign) and unparse(st) == 'w = self.psi0'
+                   for st in r.body)
+    if not ok or not start_ok:
+        rep.violation('KRYLOV-coefficients', m, qr, 'rebuild-pairing',
+                      'the rebuild starts from w = psi0 = v_0; after the matvec and the '
+                      'normalisation of iteration k the vector is v_{k+1} and enters the result '
+                      'with vf[k+1]', r.lineno)
+
+
+CACHE_WRITERS = ('iscale_prefactor', 'iadd_prefactor_other')
+
+
+def check_cache_discipline(prog, rep):
+    """(1) the cached basis of one run() does not leak into the next: a class whose
+    _build_krylov fills the cache either empties it at the start of _build_krylov or on every path
+    through its _calc_result_full; (2) vectors read back from the cache are read-only: they are
+    never the target (first argument) of iscale_prefactor / iadd_prefactor_other, nor of an
+    in-place Array method."""
+    from ..cfg import CFG
+    m = prog.module(KRY)
+    ct = prog.classtable()
+    base = ct.get('KrylovBased')
+    n = 0
+    for ci in ct.cone(base):
+        bk = ct.resolve_method(ci, '_build_krylov')
+        cf = ct.resolve_method(ci, '_calc_result_full')
+        if bk is None or cf is None or ci.module is not m:
+            continue
+        bkf, cff = bk[1], cf[1]
+        if '_to_cache' not in unparse(bkf):
+            continue
+        n += 1
+
+        def is_reset(nd):
+            st = nd.stmt
+            return isinstance(st, ast.Assign) and any(unparse(t) == 'self._cache'
+                                                       for t in st.targets)
+
+        # (a) reset before the first _to_cache in _build_krylov
+        cfg = CFG(bkf)
+        first = [st for st in stmts_of(bkf) if '_to_cache' in unparse(st) and
+                 not isinstance(st, (ast.For, ast.While, ast.If))]
+        a_ok = bool(first) and all(cfg.dominators_like_before(st, is_reset) for st in first)
+        # (b) every normal path through _calc_result_full resets
+        cfg2 = CFG(cff)
+        r = cfg2.reachable_from([cfg2.entry], blocked=lambda nd: nd.stmt is not None and
+                                is_reset(nd))
+        b_ok = cfg2.exit not in r
+        rep.instance('KRYLOV-cache-reset', {'class': ci.name, 'reset in _build_krylov': a_ok,
+                                            'reset on every path of _calc_result_full': b_ok})
+        if not (a_ok or b_ok):
+            rep.violation('KRYLOV-cache-reset', m, '%s._calc_result_full' % bk[0].name
+                          if False else '%s._build_krylov' % ci.name,
+                          'stale-cache:%s' % ci.name,
+                          '%s: the Krylov basis cached by one run() is still in self._cache when '
+                          'the next run() starts (neither _build_krylov empties it first nor does '
+                          'every path of _calc_result_full): the new vectors are orthogonalised '
+                          'against / summed with the old basis' % ci.name, bkf.lineno)
+    # (2) read-only cached vectors
+    for q, f in m.functions.items():
+        if '.' not in q or '_cache' not in unparse(f):
+            continue
+        alias = set()
+        changed = True
+        while changed:
+            changed = False
+            for st in ast.walk(f):
+                src = tgt = None
+                if isinstance(st, ast.Assign) and len(st.targets) == 1 and \
+                        isinstance(st.targets[0], ast.Name):
+                    src, tgt = st.value, st.targets[0].id
+                elif isinstance(st, (ast.For, ast.comprehension)) and \
+                        isinstance(st.target, ast.Name):
+                    src, tgt = st.iter, st.target.id
+                elif isinstance(st, (ast.For, ast.comprehension)) and \
+                        isinstance(st.target, ast.Tuple) and isinstance(st.iter, ast.Call) and \
+                        call_name(st.iter) == 'enumerate' and st.iter.args and \
+                        isinstance(st.target.elts[-1], ast.Name):
+                    src, tgt = st.iter.args[0], st.target.elts[-1].id
+                if src is None:
+                    continue
+                b = src
+                while isinstance(b, ast.Subscript):
+                    b = b.value
+                if (unparse(b) == 'self._cache' or (isinstance(b, ast.Name) and b.id in alias)) \
+                        and tgt not in alias:
+                    alias.add(tgt)
+                    changed = True
+        for c in body_nodes(f):
+            if not isinstance(c, ast.Call):
+                continue
+            tgt = None
+            if isinstance(c.func, ast.Attribute) and c.func.attr in CACHE_WRITERS and c.args:
+                tgt = c.args[0]
+            elif isinstance(c.func, ast.Attribute) and re.match(r'^i[a-z]', c.func.attr) and \
+                    c.func.attr not in ('index', 'items', 'insert', 'isdigit') and \
+                    not is_self_attr(c.func):
+                tgt = c.func.value
+            if tgt is None:
+                continue
+            b = tgt
+            while isinstance(b, ast.Subscript):
+                b = b.value
+            hit = (isinstance(b, ast.Name) and b.id in alias and isinstance(tgt, (
+                ast.Name, ast.Subscript))) or unparse(b) == 'self._cache'
+            if isinstance(tgt, ast.Name) and tgt.id in alias:
+                # `krylov_basis = self._cache` names the list, not a vector: only elements count
+                hit = any(isinstance(st, ast.Assign) and isinstance(st.targets[0], ast.Name) and
+                          st.targets[0].id == tgt.id and isinstance(st.value, ast.Subscript)
+                          for st in ast.walk(f)) or any(
+                    isinstance(st, (ast.For, ast.comprehension)) and tgt.id in names_in(st.target)
+                    for st in ast.walk(f))
+            rep.instance('KRYLOV-cache-readonly', {'function': q, 'call': unparse(c)[:70],
+                                                   'target_is_cached': bool(hit)},
+                         nontrivial=bool(hit))
+            if hit:
+                rep.violation('KRYLOV-cache-readonly', m, q, 'cached-vector-written:' +
+                              unparse(tgt)[:30],
+                              '`%s` writes in place into `%s`, a basis vector read back from '
+                              'self._cache: the Krylov basis is corrupted for every later use '
+                              '(further Ritz vectors, the next coefficient)' %
+                              (unparse(c)[:80], unparse(tgt)), c.lineno)
+    return n
+
+
 def check_recurrence(prog, rep):
     m = prog.module(KRY)
     rep.unit(m)
@@ -83,19 +334,7 @@ def check_recurrence(prog, rep):
                           'coefficients',
                           'the rebuild must use alpha = h[k,k] and beta = h[k,k+1] exactly where '
                           'the first pass stored them (h symmetric tridiagonal)', r.lineno)
-        # starting vector and coefficient pairing in the final sum
-        f = m.func('KrylovBased._calc_result_full')
-        src = unparse(f)
-        rep.instance('KRYLOV-coefficients', {'function': 'KrylovBased._calc_result_full'})
-        ok = 'self.iadd_prefactor_other(psif, vf[N - k], self._cache[-k])' in src and \
-            'range(1, min(len_cache + 1, N))' in src and \
-            'self._rebuild_krylov_for_result_full(psif, N - len_cache - 1)' in src and \
-            'self.iadd_prefactor_other(psif, vf[k + 1], w)' in srcr
-        if not ok:
-            rep.violation('KRYLOV-coefficients', m, 'KrylovBased._calc_result_full',
-                          'coefficient-pairing',
-                          'psi = sum_k vf[k] v_k: cached vectors cache[-k] pair with vf[N-k], the '
-                          'rebuilt ones (k+1 = 1 .. N-len_cache-1) with vf[k+1]', f.lineno)
+        check_pairing(m, rep, r)
     # ground state = lowest eigenvector of the tridiagonal matrix
     f = m.func('LanczosGroundState._calc_result_krylov')
     rep.instance('KRYLOV-ritz', {})
@@ -250,9 +489,19 @@ def run(prog, rep, tier):
              'adjoint() conjugates scalars and adjoints operators; P H P and H + shift')
     rep.rule('KRYLOV-eshift / cache / gram-schmidt', 'energy-shift bookkeeping, Arnoldi cache '
              'requirement, Gram-Schmidt structure')
+    rep.rule('KRYLOV-coefficients', 'index polynomials: cache[-k] pairs with vf[N-k] for k = 1 .. '
+             'min(len_cache, N-1); the rebuild covers N-len_cache-1 vectors and pairs the vector '
+             'after the (k+1)-th matvec with vf[k+1]; len_cache is read before the cache is '
+             'emptied')
+    rep.rule('KRYLOV-cache-reset / cache-readonly', 'the cache is emptied between runs (must-'
+             'precede in _build_krylov or must-pass in _calc_result_full on the CFG); vectors '
+             'read back from the cache are never the target of an in-place update')
     check_recurrence(prog, rep)
     check_wrappers(prog, rep)
     check_eshift(prog, rep)
+    if check_cache_discipline(prog, rep) < 2:
+        raise AnalysisError('KRYLOV-cache-reset: fewer than 2 Krylov classes fill the cache')
+    rep.floor('KRYLOV-cache-readonly', 8)
     rep.floor('WRAP-attrs', 8)
     rep.assumptions += ['Rayleigh quotients, residuals, convergence are NOT decided']
     return rep.finish(
